@@ -616,7 +616,12 @@ Inductive case :=
 | CBig (dbg : bool) (d : dtype) (shape : list N) (written_header : list N) (written_len : N) (impl : outcome)
 (* npz::read / safetensors::read on arbitrary bytes: archive and JSON parsing are third-party
    (not modelled); only the outcome class is recorded: 0 Ok, 1 Err, 2 Panic, 3 Timeout *)
-| CReadOther (dbg : bool) (f : fmt) (cls : N).
+| CReadOther (dbg : bool) (f : fmt) (cls : N)
+(* several named tensors written into ONE npz / safetensors archive.  [wrote]: the writer
+   returned Ok; [rb]: everything `read` returned, as (key, tensor); [ra]: what
+   `read_array(name_i)` returned for every written name, in order *)
+| CMulti (dbg : bool) (f : fmt) (entries : list (list N * (dtype * (list N * list N))))
+         (wrote : bool) (rb : list (list N * outcome)) (ra : list outcome).
 
 Definition model_big (d : dtype) (shape : list N) (hdr : list N) : outcome :=
   match read_header hdr with
@@ -629,6 +634,43 @@ Definition model_big (d : dtype) (shape : list N) (hdr : list N) : outcome :=
       | None => RErr EDtype
       end
   | Err e => RErr e | Panic => RPanic | Fuel => RFuel
+  end.
+
+(* Specification of archive entry names, written independently of [npz_file_name]: the key
+   under which a tensor written as [name] must be found again.  npz: "names may be passed
+   with or without the .npy suffix" -- one trailing ".npy" is not part of the name;
+   safetensors: the name itself. *)
+Definition spec_key (f : fmt) (name : list N) : list N :=
+  match f with
+  | FNpz => match rev name with
+            | a1 :: a2 :: a3 :: a4 :: r =>                 (* "ypn." *)
+                if (a1 =? 121) && (a2 =? 112) && (a3 =? 110) && (a4 =? 46) then rev r else name
+            | _ => name
+            end
+  | _ => name
+  end.
+
+Fixpoint distinctb (l : list (list N)) : bool :=
+  match l with
+  | [] => true
+  | x :: r => negb (existsb (list_eqb x) r) && distinctb r
+  end.
+
+Definition subsetb (a c : list (list N)) : bool := forallb (fun x => existsb (list_eqb x) c) a.
+Definition list_eqb_keys (a c : list (list N)) : bool :=
+  (List.length a =? List.length c)%nat && subsetb a c && subsetb c a.
+
+Definition entry_outcome (e : list N * (dtype * (list N * list N))) : outcome :=
+  let '(_, (d, (sh, el))) := e in ROk d sh el.
+
+(* the model's view of a multi-entry npz write: member names, or None when refused *)
+Fixpoint npz_members (names : list (list N)) : option (list (list N)) :=
+  match names with
+  | [] => Some []
+  | n :: r => match npz_file_name n, npz_members r with
+              | Some m, Some ms => Some (m :: ms)
+              | _, _ => None
+              end
   end.
 
 Definition agree (c : case) : bool :=
@@ -659,6 +701,20 @@ Definition agree (c : case) : bool :=
       | _ => false
       end
   | CReadOther _ _ _ => true
+  | CMulti _ f entries wrote rb ra =>
+      match f with
+      | FNpz =>
+          (* the writer succeeds iff no name has an empty base and the member names are
+             distinct (zip refuses duplicates); keys returned are the stripped member names *)
+          match npz_members (map fst entries) with
+          | Some ms =>
+              if distinctb ms
+              then wrote && list_eqb_keys (map (fun m => match npz_read_key m with Some k => k | None => m end) ms) (map fst rb)
+              else negb wrote
+          | None => negb wrote
+          end
+      | _ => true
+      end
   end.
 
 (* the implementation's own outcome satisfies the property: arbitrary bytes give a value or
@@ -669,15 +725,31 @@ Definition prop_ok (c : case) : bool :=
   | CRound _ f d shape elems _ aux_in aux_out impl =>
       (match f with
        | FNpz =>
-           (* an array name with an empty base ("" or ".npy") is refused by npz::write *)
-           if list_eqb aux_in [] || list_eqb aux_in NPY_SUFFIX
+           (* an array name with an empty base ("" or ".npy") is refused by npz::write;
+              otherwise the tensor is read back unchanged AND under its own name *)
+           if list_eqb (spec_key FNpz aux_in) []
            then match impl with RErr _ => true | _ => false end
-           else outcome_eqb impl (ROk d shape elems)
+           else outcome_eqb impl (ROk d shape elems) && opt_list_eqb aux_out (Some (spec_key FNpz aux_in))
        | _ => outcome_eqb impl (ROk d shape elems)
        end)
   | CBig _ d shape _ _ impl =>
       match impl with ROk d' s' _ => dtype_eqb d d' && list_eqb shape s' | _ => false end
   | CReadOther _ _ cls => cls <? 2
+  | CMulti _ f entries wrote rb ra =>
+      let keys := map (fun e => spec_key f (fst e)) entries in
+      if existsb (fun k => list_eqb k []) keys || negb (distinctb keys)
+      then (* an empty or repeated name cannot be stored: the writer must refuse (npz);
+              nothing is required of safetensors, whose writer keeps one of the duplicates *)
+           match f with FNpz => negb wrote | _ => true end
+      else
+        (* every written (name, tensor) pair is read back under the SAME name with the same
+           dtype, shape and elements -- by read (nothing else in the archive) and by read_array *)
+        wrote &&
+        (List.length rb =? List.length entries)%nat &&
+        forallb (fun e => existsb (fun r => list_eqb (fst r) (spec_key f (fst e)) &&
+                                            outcome_eqb (snd r) (entry_outcome e)) rb) entries &&
+        (List.length ra =? List.length entries)%nat &&
+        forallb (fun p => outcome_eqb (snd p) (entry_outcome (fst p))) (combine entries ra)
   end.
 
 Definition show (c : case) :=
@@ -686,4 +758,5 @@ Definition show (c : case) :=
   | CRound dbg f d shape elems written _ _ _ => (read dbg written, Some (write d shape elems))
   | CBig dbg d shape hdr _ _ => (model_big d shape hdr, Some (build_header d shape))
   | CReadOther _ _ _ => (RErr EOther, None)
+  | CMulti _ _ _ _ _ _ => (RErr EOther, None)
   end.
